@@ -211,7 +211,8 @@ class Report:
         }
         ev = {"property_id": self.pid, "tier": self.tier, "seed": self.seed, "level": level, "coverage": coverage,
               "assumptions": self.assumptions, "wall_s": round(time.time() - self.t0, 2), "violations": new_violations}
-        json.dump(ev, open(os.path.join(EVIDENCE_DIR, f"{self.pid}.json"), "w"), indent=1)
+        if getattr(self, "replay_key", None) is None:          # a replay run does not overwrite the evidence of the check
+            json.dump(ev, open(os.path.join(EVIDENCE_DIR, f"{self.pid}.json"), "w"), indent=1)
         for ln in lines:
             print(ln)
         ok_can = sum(c["caught"] for c in self.canaries)
